@@ -66,6 +66,23 @@ ALGS = {
     'md4': (lambda: md.MD4(), 32, 4, True, S.md4_compress),
     'md5': (lambda: md.MD5(), 32, 4, True, S.md5_compress),
 }
+CNAMES = ['sha0_compress', 'sha1_compress', 'sha2_compress32', 'sha2_compress64', 'md4_compress', 'md5_compress']
+
+def install_update_contract(c, h, alg):
+    """the loop body of update() (one compression) is used through its contract  H' = compress(H, W),
+    which is the obligation update/one-block=compress"""
+    from pyvc.sym import EngineError
+    comp = S.compress_of(alg); w = h.wsize
+    qual = type(h).update.__module__ + '.' + type(h).update.__qualname__
+    def handler(I, env):
+        s = env.lookup('self'); W = env.lookup('W')
+        if len(W) != 16 or any(x.size != w for x in W) or any(b.size != w for b in s.H):
+            raise EngineError('loop contract precondition of %s does not hold' % qual)
+        Hn = comp(*[b.ival for b in s.H], *[x.ival for x in W])
+        for i, v in enumerate(Hn):
+            nb = Bits(0, w); nb.ival = v; s.H[i] = nb
+    c.loop_contract(qual, 0, handler)
+
 OUTLEN = {'sha0': 20, 'sha1': 20, 'sha256': 32, 'sha224': 28, 'sha512': 64, 'sha384': 48, 'sha512/224': 28, 'sha512/256': 32, 'md4': 16, 'md5': 16}
 
 @obligation(P, 'update/one-block=compress', cls='L', opaque=COMP, timeout=300,
@@ -183,14 +200,14 @@ def spec_hash(alg, M, L):
     if '/' in alg: return S.sha2(512, M, L, int(alg.split('/')[1]))
     return S.sha2(int(alg[3:]), M, L)
 
-@obligation(P, '__call__/bounded', cls='B', opaque=COMP, timeout=200, bound='message length <= 2 blocks (+1 byte); every listed length, bit residues 0..7 (thorough) / {0,1,7} at selected lengths (quick); contents symbolic',
+@obligation(P, '__call__/bounded', cls='B', opaque=CNAMES, timeout=200, bound='message length <= 2 blocks (+1 byte); every listed length, bit residues 0..7 (thorough) / {0,1,7} at selected lengths (quick); contents symbolic',
             funcs=['crysp.sha.SHA1.__call__', 'crysp.sha.SHA1.update', 'crysp.sha.SHA2.update', 'crysp.md.MD4.__call__', 'crysp.md.MD4.update', 'crysp.md.MD5.update',
                    'crysp.padding.blockiterator.iterblocks', 'crysp.padding.SHApadding.lastblock', 'crysp.padding.MDpadding.lastblock'],
             cases=_whole_cases)
 def _(c):
     a, n, r = c.case('alg'), c.case('n'), c.case('r')
     h = ALGS[a][0]()
-    install_components(c, h)
+    install_update_contract(c, h, a)
     M = c.bytes('M', n)
     L = 8 * n - ((8 - r) % 8)
     # dirty state from an earlier call must not matter (the call re-initialises): C10's havoc in miniature
